@@ -57,14 +57,14 @@ NextBoundary(cfg, x, t) ==
 (***************************************************************************)
 (* RFC 6298 estimator in fixed point (unit = 1/64 of a time unit).         *)
 (***************************************************************************)
-(* TLC integers are 32 bit: with U = 16 a response time of up to 60 s (in   *)
+(* TLC integers are 32 bit: with U = 16 a response time of up to 20 s (in   *)
 (* microseconds) keeps every intermediate value below 2^31.  A longer      *)
 (* sample puts the reference into the state `unk` (C15 is then not judged  *)
 (* until the estimator is reset) - a sound relaxation.  Truncation error   *)
 (* of the reference: < 1/16 per update on each of RTTVAR (contraction 3/4) *)
 (* and SRTT (contraction 7/8), hence < 0.25*4 + 0.5 = 1.5 units on RTO.    *)
 U == 16
-RMax == 60000000
+RMax == 20000000
 EstInit(cfg) == [srtt |-> 0, rttvar |-> 0, rto |-> cfg.rto * U, first |-> TRUE, unk |-> FALSE]
 EstSample(e, cfg, r) ==  \* r in time units, r > 0
     LET R == r * U IN
